@@ -1513,3 +1513,13 @@ TABLE["C06"] += [
     N("global-enum-search-with-any", (MX, _GE_OLD, "            return any(isinstance(member, parser.Enum) and member.name == arg_type.typename.name\n                       for member in class_.parent.content)\n")),
     N("global-enum-search-break-when-found", (MX, _GE_OLD, "            found = False\n            for member in class_.parent.content:\n                if isinstance(member, parser.Enum) and member.name == arg_type.typename.name:\n                    found = True\n                    break\n            return found\n")),
 ]
+
+# build files and scripts agree (C16 Y8)
+TABLE["C16"] += [
+    B("script-renames-the-boost-switch", {"Y8", "Y3"}, ("scripts/pybind_wrap.py", '"--use-boost-serialization"', '"--use_boost_serialization"')),
+    B("script-turns-the-submodule-switch-into-an-option", {"Y8", "Y3"}, ("scripts/pybind_wrap.py", '"--is_submodule",\n                            default=False,\n                            action="store_true")', '"--is_submodule",\n                            default="")')),
+    B("cmake-cuts-every-extension", {"Y8"}, ("cmake/PybindWrap.cmake", "get_filename_component(interface ${interface_file} NAME_WLE)", "get_filename_component(interface ${interface_file} NAME_WE)")),
+    B("cmake-passes-an-undeclared-option", {"Y8"}, ("cmake/MatlabWrap.cmake", "--top_module_namespaces ${moduleName} --ignore ${ignore_classes}", "--top_module_namespaces ${moduleName} --ignore_classes ${ignore_classes}")),
+    B("matlab-gateway-file-renamed", {"Y8"}, (MW, "        return self.module_name + '_wrapper'", "        return self.module_name + '_gateway'")),
+    N("cmake-comment-added", ("cmake/PybindWrap.cmake", "  # Convert .i file names to .cpp file names.", "  # Convert .i file names to .cpp file names (--not-an-option in a comment).")),
+]
